@@ -91,6 +91,8 @@ def gen_case(r, i, tier):
     cfg["beta"] = float(r.choice([1.0, 1.0, r.uniform(1e-3, 1), 10 ** r.uniform(-6, -1)]))
     cfg["fit_seed"] = int(r.integers(1 << 30))
     cfg["memo"] = bool(i % 4 == 1)
+    cfg["refit"] = bool(i % 3 == 2)
+    cfg["pole"] = bool(i % 7 == 3)
     return cfg
 
 
@@ -100,11 +102,17 @@ def run_case(c):
     tr = s.preconditioning_transform
     rfit = np.random.default_rng(c["fit_seed"])
     xfit = rfit.uniform(-0.9 * c["half"], 0.9 * c["half"], (40, c["dims"]))
+    if c.get("refit"):
+        # the preconditioning is fitted again and again (once on the initial population, then in every mutation, each time on a
+        # population of another spread): the target handed to the kernel belongs to the LAST fit
+        s.fit_preconditioning_transform(xp.asarray(0.05 * xfit + 0.3 * c["half"]))
     s.fit_preconditioning_transform(xp.asarray(xfit))
     txp = tr.xp
     z_in = txp.asarray(np.asarray(c["z"]), dtype=tr.dtype) if tr.dtype is not None else txp.asarray(np.asarray(c["z"]))
     x_pre, j = tr.inverse(z_in)
     x_pre, j = ns.to_np(x_pre), ns.to_np(j).reshape(-1)
+    if c.get("pole") and np.all(np.abs(x_pre[0]) < c["half"]):
+        target.pole = x_pre[0].copy()       # the likelihood is +inf exactly at the pre-image of the first kernel state
     target.calls.clear()
     seen = {}
     orig_ll = target.log_likelihood
